@@ -86,6 +86,13 @@ class StandardGeometry(BaseGeometry):
         # handle case when a = 0
         t[a == 0] = -c[a == 0] / b[a == 0]
 
+        # the surface is the sheet of the conic through the vertex: rays that
+        # only meet the conic beyond its equator miss the surface
+        with warnings.catch_warnings():
+            warnings.simplefilter('ignore')
+            z = rays.z + t * rays.N
+            t[(1 + self.k) * z / self.radius > 1] = np.nan
+
         return t
 
     def surface_normal(self, rays):
